@@ -1,7 +1,7 @@
 """Per-property tables used by ./check: model files the correspondence needs, trusted base, assumptions."""
 
 KERNEL = "Coq 8.16.1 kernel and vm_compute (used for Examples and for evaluating the model on case files); no native_compute; no axioms (Print Assumptions: closed under the global context)"
-GEN = "gen/ translator (go/ast): constants, struct-tag schemas, templates, uuid masks, lock shape re-extracted from /repo on every run; gen/funcs.go translates the BODIES of Validate, VerifyAssertionConditions, ValidateDecodedLogoutResponse/Request and validate*Attributes to Gallina (GenFuncs.v over the combinators of GenPrelude.v: nil dereference = explicit panic outcome), trusted: its Go-subset semantics (GenPrelude.v) and its field-binding table from Go struct fields to Types.v accessors (exercised by the correspondence run, which renders real Go structs into those records); assumes one clock reading per call (sp.Clock.Now() -> now) and non-nil receiver/arguments"
+GEN = "gen/ translator (go/ast): constants, struct-tag schemas, templates, uuid masks, lock shape re-extracted from /repo on every run; gen/funcs.go translates the BODIES of Validate, VerifyAssertionConditions, ValidateDecodedLogoutResponse/Request, validate*Attributes, RetrieveAssertionInfo, Values.Get/GetSize/GetAll and the key getters of saml.go (getEncryptionCert, GetEncryptionCertBytes, getSigningCert, GetSigningCertBytes, getSignerCert, GetEncryptionKey, GetSigningKey) to Gallina (GenFuncs.v over the combinators of GenPrelude.v: nil dereference = explicit panic outcome), trusted: its Go-subset semantics (GenPrelude.v) and its field-binding table from Go struct fields to Types.v accessors (exercised by the correspondence run, which renders real Go structs into those records); assumes one clock reading per call (sp.Clock.Now() -> now) and non-nil receiver/arguments"
 HARNESS = "Go harness (generators, projection of observables to Coq terms, spec oracle), go1.24.0 toolchain as /repo"
 
 PROFILE_MODEL = ["Base", "Time", "Types", "SchemaDefs", "ConcDefs", "Generated", "Profile", "GenPrelude", "GenFuncs"]
